@@ -347,8 +347,12 @@ static uint64_t rnd(void) { g_rng ^= g_rng << 13; g_rng ^= g_rng >> 7; g_rng ^= 
 
 #include <pthread.h>
 typedef struct { int id; int nthreads; char **expect; long mismatches; char *first; } tctx;
+__thread int vdrv_tid;   /* index of the calling driver thread (0 when sequential) */
+int vdrv_nthreads = 1;
+static pthread_barrier_t g_lockstep;
 static void *thread_main(void *arg) {
     tctx *t = arg;
+    vdrv_tid = t->id;
     /* every thread runs every case, starting at a different offset so that
      * different codecs overlap in time */
     for (size_t k = 0; k < g_ncases; k++) {
@@ -362,6 +366,23 @@ static void *thread_main(void *arg) {
         free(out);
         free(copy);
         if ((k & 63) == 0) sched_yield();
+    }
+    /* lockstep phase: the cases whose inputs are shared objects (conc_*) are
+     * run by all threads at the same moment, several times, so that calls on
+     * the SAME object overlap (the staggered pass above rarely does that) */
+    for (size_t i = 0; i < g_ncases; i++) {
+        if (strncmp(g_cases[i], "conc_", 5)) continue;
+        pthread_barrier_wait(&g_lockstep);
+        for (int r = 0; r < 6; r++) {
+            char *copy = strdup(g_cases[i]);
+            char *out = run_case(copy);
+            if (strcmp(out, t->expect[i])) {
+                if (!t->mismatches) t->first = strdup(out);
+                t->mismatches++;
+            }
+            free(out);
+            free(copy);
+        }
     }
     return NULL;
 }
@@ -406,6 +427,8 @@ int main(int argc, char **argv) {
         for (size_t i = 0; i < g_ncases; i++) { char *c = strdup(g_cases[i]); expect[i] = run_case(c); free(c); }
         pthread_t *th = malloc((size_t)threads * sizeof *th);
         tctx *tc = calloc((size_t)threads, sizeof *tc);
+        vdrv_nthreads = threads;
+        pthread_barrier_init(&g_lockstep, NULL, (unsigned)threads);
         for (int t = 0; t < threads; t++) { tc[t].id = t; tc[t].nthreads = threads; tc[t].expect = expect; pthread_create(&th[t], NULL, thread_main, &tc[t]); }
         long mism = 0;
         for (int t = 0; t < threads; t++) { pthread_join(th[t], NULL); mism += tc[t].mismatches; }
